@@ -21,8 +21,12 @@ m = {
         {"name": "lean-model-and-proofs", "path": "lean/", "serves_properties": sorted(PROPS.keys()),
          "kind_free_text": "Lean 4 model of the code (lean/S2), property theorems (lean/S2Proofs/Properties), "
                            "regenerated-instance obligations (lean/S2/Generated + lean/S2Proofs/Ties), oracle executable (lean/Oracle)"},
-        {"name": "translator", "path": "translator/", "serves_properties": sorted(PROPS.keys()),
-         "kind_free_text": "Go AST -> Lean translation of constants, tables, scalar functions and decoder/protocol IR; re-run on every check"},
+    ] + [
+        {"name": t, "path": t + "/", "serves_properties": sorted(k for k, c in PROPS.items() if t in c.get("translators", [])),
+         "kind_free_text": "Go (go/parser + go/types + go/constant) -> Lean translation of library source, re-run on every check; "
+                           "output lean/S2/Generated/*.lean, tied to the hand model by lean/S2Proofs/Ties/<Cxx>*.lean; mutation self-test in " + t + "/selftest"}
+        for t in sorted(d for d in os.listdir(ROOT) if d.startswith("translator_") and os.path.exists(os.path.join(ROOT, d, "main.go")))
+    ] + [
         {"name": "correspondence-harness", "path": "harness/", "serves_properties": sorted(PROPS.keys()),
          "kind_free_text": "Go program calling the real code in-process (tag verif), line protocol to the Lean oracle which runs the model and judges the property"},
     ],
